@@ -36,7 +36,8 @@ fn plant(rng: &mut Rng, buf: &mut Vec<u8>, sum: &mut Summary) {
     // choose where the footer starts; toc is the bytes right before it
     if buf.len() < FOOTER_SIZE + 1 { return; }
     let p = rng.usize(0, buf.len() - FOOTER_SIZE);
-    let tl = if p == 0 { 0 } else { rng.usize(1, p.min(64)) };
+    // mostly short TOCs, but one in four claims a long region reaching back over earlier content
+    let tl = if p == 0 { 0 } else if rng.chance(1, 4) { rng.usize(1, p) } else { rng.usize(1, p.min(64)) };
     let toc = buf[p - tl..p].to_vec();
     let mut f = CommitFooter { toc_len: tl as u64, toc_hash: *blake3::hash(&toc).as_bytes(), generation: rng.below(1000) };
     let kind = rng.below(10);
@@ -56,7 +57,44 @@ fn plant(rng: &mut Rng, buf: &mut Vec<u8>, sum: &mut Summary) {
     }
 }
 
+/// an older valid commit followed, at a higher offset, by a near-valid footer (bad hash / zero or
+/// oversized length / damaged magic) whose claimed TOC region reaches back over the start of the
+/// older footer — what a torn later commit or an overlapping forgery looks like
+fn gen_stacked(rng: &mut Rng, sum: &mut Summary) -> Vec<u8> {
+    let n0 = rng.usize(0, 80);
+    let mut buf = rng.bytes(n0);
+    let n1 = rng.usize(1, 60);
+    let toc1 = rng.bytes(n1);
+    let f1 = CommitFooter { toc_len: toc1.len() as u64, toc_hash: *blake3::hash(&toc1).as_bytes(), generation: rng.below(100) };
+    buf.extend_from_slice(&toc1);
+    let f1_start = buf.len();
+    buf.extend_from_slice(&f1.encode());
+    let n2 = rng.usize(0, 90);
+    let gap = rng.bytes(n2);
+    buf.extend_from_slice(&gap);
+    let p2 = buf.len();
+    // the later footer claims a region that starts at or before the older footer's start (or inside it)
+    let reach = match rng.below(4) {
+        0 => p2 - f1_start,                                   // exactly back to the older footer
+        1 => p2 - rng.usize(0, f1_start),                     // beyond it
+        2 => p2 - (f1_start + rng.usize(1, FOOTER_SIZE - 1)), // into the middle of it
+        _ => gap.len().max(1).min(p2),                        // only its own gap (control)
+    };
+    let toc2 = buf[p2 - reach..p2].to_vec();
+    let mut f2 = CommitFooter { toc_len: reach as u64, toc_hash: *blake3::hash(&toc2).as_bytes(), generation: 100 + rng.below(100) };
+    match rng.below(5) {
+        0 | 1 | 2 => { f2.toc_hash[rng.usize(0, 31)] ^= 1 << rng.below(8); sum.branch("stacked-later-footer-bad-hash"); }
+        3 => { sum.branch("stacked-later-footer-valid"); }
+        _ => { f2.toc_len = p2 as u64 + 1; sum.branch("stacked-later-footer-oversized"); }
+    }
+    buf.extend_from_slice(&f2.encode());
+    let n3 = rng.usize(0, 40);
+    buf.extend_from_slice(&rng.bytes(n3));
+    buf
+}
+
 fn gen_case(rng: &mut Rng, thorough: bool, sum: &mut Summary) -> Vec<u8> {
+    if rng.chance(1, 5) { return gen_stacked(rng, sum); }
     let maxlen = if thorough { 6000 } else { 1500 };
     let style = rng.below(12);
     let len = match style {
@@ -118,10 +156,11 @@ fn main() {
     let mut drv = Driver::spawn(&args.driver).expect("spawn driver");
     let mut sum = Summary::new("C31", &args,
         "random byte strings (0..1500 B quick / 6000 B thorough; all-'M', M-dense, zero, random fills) with 0-4 planted \
-         footers (valid, hash bit-flip, toc_len 0 / > offset / huge, damaged magic, magic truncated at end); \
+         footers (valid, hash bit-flip, toc_len 0 / > offset / huge, damaged magic, magic truncated at end; claimed TOC regions short or reaching back over earlier footers; 'stacked' images: an older valid commit under a later near-valid footer overlapping it); \
          non-trivial = contains at least one full magic occurrence; distinct = blake3(bytes)+result");
     sum.expect_branches(&["result-some", "result-none", "skipped-invalid-above", "none-with-candidates",
-        "plant-valid", "plant-hash-bitflip", "plant-toclen-zero", "plant-toclen-too-big", "magic-truncated-at-end"]);
+        "plant-valid", "plant-hash-bitflip", "plant-toclen-zero", "plant-toclen-too-big", "magic-truncated-at-end",
+        "stacked-later-footer-bad-hash", "stacked-later-footer-valid", "stacked-later-footer-oversized"]);
     if args.mode == "replay" {
         let case = load_replay(args.replay_file.as_ref().expect("replay file"));
         let input = case.get("input").unwrap_or(&case);
